@@ -37,6 +37,28 @@ let olines_of_field s =
       else OStr (ustr_of_field (String.sub it 1 (String.length it - 1))))
     (String.split_on_char ';' s)
 
+(* counted line list: "<n>:<l1>;<l2>..." *)
+let clines_of_field s =
+  let i = String.index s ':' in
+  let n = int_of_string (String.sub s 0 i) in
+  let rest = String.sub s (i + 1) (String.length s - i - 1) in
+  if n = 0 then [] else List.map ustr_of_field (String.split_on_char ';' rest)
+let opt_clines s = if s = "N" then None else Some (clines_of_field (String.sub s 1 (String.length s - 1)))
+
+let rec show_tree = function
+  | Leaf code -> "[" ^ string_of_int (List.length code) ^ ":" ^ lines_out code ^ "]"
+  | Node kids -> show_kids kids
+and show_kids kids =
+  "{" ^ String.concat "," (List.map (fun (k, v) -> field_of_ustr k ^ ":" ^ show_tree v) kids) ^ "}"
+
+(* flat level: "name=<clines>,name=<clines>" *)
+let level_of_field s =
+  if s = "" then [] else
+  List.map (fun it ->
+      let i = String.index it '=' in
+      (ustr_of_field (String.sub it 0 i), Leaf (clines_of_field (String.sub it (i + 1) (String.length it - i - 1)))))
+    (String.split_on_char ',' s)
+
 let handle fields =
   match fields with
   | ["wc"; ll; ind; sp; ct; line] ->
@@ -44,6 +66,13 @@ let handle fields =
   | ["wl"; ll; ind; sp; ct; ols] ->
       show_result (fun (ls, i) -> string_of_int (int_of_z i) ^ "|" ^ lines_out ls)
         (write_lines (wparams ll ind sp ct) (olines_of_field ols))
+  | "gs" :: files ->
+      let r = List.fold_left (fun acc f -> bind acc (fun t -> get_splicers (clines_of_field f) t)) (Ok []) files in
+      show_result show_kids r
+  | ["cs"; show; comment; path; name; level; dflt; force] ->
+      show_result (fun (ls, b) -> (if b then "T" else "F") ^ "|" ^ string_of_int (List.length ls) ^ ":" ^ lines_out ls)
+        (create_splicer (show = "1") (ustr_of_field comment) (ustr_of_field path) (ustr_of_field name)
+           (level_of_field level) (opt_clines dflt) (opt_clines force))
   | ["lstrip"; s] -> field_of_ustr (lstrip (ustr_of_field s))
   | ["rstrip"; s] -> field_of_ustr (rstrip (ustr_of_field s))
   | _ -> "BADCMD"
